@@ -151,33 +151,51 @@ extern "C" void h_c02_unscale_dualray()
       vp_assume(z[j] == a);                           // (proved just above)
    }
 
-   // ys proves infeasibility of the SCALED LP as stored, with margin >= 1
-   double Ls = 0.0, Us = 0.0;
+   // ys is a Farkas vector of the SCALED LP as stored: every bound/side it uses is finite ...
    for(int i = 0; i < NR; ++i)
    {
-      if(ys[i] > 0.0) { vp_assume(fin_lo(lp.lhs(i))); Ls += ys[i] * lp.lhs(i); }
-      if(ys[i] < 0.0) { vp_assume(fin_up(lp.rhs(i))); Ls += ys[i] * lp.rhs(i); }
+      if(ys[i] > 0.0) vp_assume(fin_lo(lp.lhs(i)));
+      if(ys[i] < 0.0) vp_assume(fin_up(lp.rhs(i)));
    }
    for(int j = 0; j < NC; ++j)
    {
-      if(zs[j] > 0.0) { vp_assume(fin_up(lp.upper(j))); Us += zs[j] * lp.upper(j); }
-      if(zs[j] < 0.0) { vp_assume(fin_lo(lp.lower(j))); Us += zs[j] * lp.lower(j); }
+      if(zs[j] > 0.0) vp_assume(fin_up(lp.upper(j)));
+      if(zs[j] < 0.0) vp_assume(fin_lo(lp.lower(j)));
    }
+   // => so is every bound/side the unscaled vector uses in the ORIGINAL LP
+   for(int i = 0; i < NR; ++i)
+   {
+      if(y[i] > 0.0) vp_assert(fin_lo(d.lhs[i]), 1);
+      if(y[i] < 0.0) vp_assert(fin_up(d.rhs[i]), 2);
+   }
+   for(int j = 0; j < NC; ++j)
+   {
+      if(zo[j] > 0.0) vp_assert(fin_up(d.up[j]), 3);
+      if(zo[j] < 0.0) vp_assert(fin_lo(d.lo[j]), 4);
+   }
+   // the terms of L and U, scaled LP as stored / original LP; each term is unchanged (asserted, then used)
+   double Ls = 0.0, Us = 0.0, L = 0.0, U = 0.0;
+   for(int i = 0; i < NR; ++i)
+   {
+      double ts = (ys[i] > 0.0) ? ys[i] * lp.lhs(i) : ((ys[i] < 0.0) ? ys[i] * lp.rhs(i) : 0.0);
+      double to = (y[i] > 0.0) ? y[i] * d.lhs[i] : ((y[i] < 0.0) ? y[i] * d.rhs[i] : 0.0);
+      vp_assert(to == ts, 8);
+      vp_assume(to == ts);
+      Ls += ts; L += to;
+   }
+   for(int j = 0; j < NC; ++j)
+   {
+      // z[j] == zo[j] = (A^T y)_j on the original matrix was proved above; z[j] is used in the product because it shares its
+      // mantissa bits with zs[j]
+      double ts = (zs[j] > 0.0) ? zs[j] * lp.upper(j) : ((zs[j] < 0.0) ? zs[j] * lp.lower(j) : 0.0);
+      double to = (zo[j] > 0.0) ? z[j] * d.up[j] : ((zo[j] < 0.0) ? z[j] * d.lo[j] : 0.0);
+      vp_assert(to == ts, 9);
+      vp_assume(to == ts);
+      Us += ts; U += to;
+   }
+   // ... and the margin is >= 1  =>  same margin for the original LP
    double margins = Ls - Us;
    vp_assume(margins >= 1.0);
-   // => y proves infeasibility of the ORIGINAL LP with the same margin
-   double L = 0.0, U = 0.0;
-   for(int i = 0; i < NR; ++i)
-   {
-      if(y[i] > 0.0) { vp_assert(fin_lo(d.lhs[i]), 1); L += y[i] * d.lhs[i]; }
-      if(y[i] < 0.0) { vp_assert(fin_up(d.rhs[i]), 2); L += y[i] * d.rhs[i]; }
-   }
-   for(int j = 0; j < NC; ++j)
-   {
-      // z[j] == zo[j] = (A^T y)_j on the original matrix was proved above; z[j] is used because it shares its mantissa bits with zs[j]
-      if(zo[j] > 0.0) { vp_assert(fin_up(d.up[j]), 3); U += z[j] * d.up[j]; }
-      if(zo[j] < 0.0) { vp_assert(fin_lo(d.lo[j]), 4); U += z[j] * d.lo[j]; }
-   }
    vp_assert(L - U >= 1.0, 5);
    vp_assert(L - U == margins, 6);
    vp_cover(1);
